@@ -472,6 +472,29 @@ func genC05(c *runCfg) error {
 		g.w("\tmsg := zzC05receiver()\n\tvar err error\n\tif vrt.Bool(\"viaPlain\") {\n\t\terr = msg.PlainNasDecode(&in)\n\t} else {\n\t\terr = msg.%s(&in)\n\t}\n", entry)
 		g.w("\tif err == nil {\n\t\tvrt.Reach(\"%s accepted\")\n\t\tzzC05post%s(msg, in)\n\t\tvrt.Assert(msg.%sMessage.%s != nil, \"%s: the body named by the message type is populated\")\n\t}\n}\n\n", m.Message, F, F, m.Message, m.Message)
 	}
+	// routing does not depend on anything but the discriminator and the message type: inputs of EVERY length 0..70000
+	// (symbolic length; mandatory part and at most one optional element, the decoder is cut at its second loop entry) are
+	// accepted by the discriminator-dispatched entry point exactly when the family entry point accepts them, with the same body
+	for i := range g.spec.Messages {
+		m := &g.spec.Messages[i]
+		if m.MsgType == nil {
+			continue
+		}
+		h := hdrLen(m)
+		epd, entry, F := "0x7e", "GmmMessageDecode", "Gmm"
+		if m.Family == "gsm" {
+			epd, entry, F = "0x2e", "GsmMessageDecode", "Gsm"
+		}
+		g.w("func VH_C05_anylen_%s() {\n", m.Message)
+		g.w("\tvrt.CutAt(%q, \"for.body\", 2)\n", decFn(m))
+		g.w("\tin := vrt.BytesSym(\"in\", 70000)\n\tvrt.Assume(len(in) >= %d)\n\tvrt.Assume(in[0] == %s && in[%d] == %d)\n", h, epd, h-1, *m.MsgType)
+		g.w("\tm1, m2 := zzC05receiver(), NewMessage()\n\tvar e1, e2 error\n")
+		g.w("\tif vrt.Cut(func() { e2 = m2.%s(&in) }) {\n\t\treturn\n\t}\n", entry)
+		g.w("\tif vrt.Cut(func() { e1 = m1.PlainNasDecode(&in) }) {\n\t\treturn\n\t}\n")
+		g.w("\tvrt.Assert((e1 == nil) == (e2 == nil), \"%s: PlainNasDecode accepts an input of any length exactly when %s does\")\n", m.Message, entry)
+		g.w("\tif e1 == nil {\n\t\tvrt.Assert(m1.%sMessage != nil && m1.%sMessage.%s != nil, \"%s: input of any length populates the body named by the message type\")\n", F, F, m.Message, m.Message)
+		g.w("\t\tvrt.Equal(m1.%sMessage, m2.%sMessage, \"%s: both entry points yield the same body for an input of any length\")\n\t}\n}\n\n", F, F, m.Message)
+	}
 	g.w(`func zzC05postGmm(msg *Message, in []byte) {
 	vrt.Assert(len(in) >= 3, "accepted 5GMM input is at least a header long")
 	vrt.Assert(msg.GmmMessage != nil && msg.GsmMessage == nil, "5GMM input populates only the 5GMM family")
